@@ -9,6 +9,9 @@ CLAIMED = {
  "C07": ("C07 PAT decoding over carriers", "§4 C07",
    "Seeded search over abstract PATs (0..42 entries, network entry, reserved bits, PIDs > 255) x PAT packet adaptation-field style x position chosen by a scripted multiplexer among foreign packets x later different PAT x absent PAT x end of stream inside the PAT packet x every Read outcome of a scripted reader; payload, packet and stream carriers decoded in the same run and compared with the abstract PAT, IsPMT probed. Sampling, not proof; the simulated dimension is thin (stream position, fragmentation, EOF/error placement, carrier equivalence).",
    "Trusts the reference serialiser; pointer_field 0 and distinct program numbers only."),
+ "C10": ("C10 SCTE-35 state tracker", "§4 C10",
+   "Discrete-event simulation on a 90 kHz clock: encoder workloads (generated broadcast day with nesting, breakaway/resumption, stream-switch events, PTS wrap; adversarial alphabet) -> optional real transport (packetiser -> accumulator -> decoder) -> scripted channel (drop, duplicate, same-object repeat, late duplicate beyond the ring, reorder) -> tracker, with duration timers calling Close early/late/twice/after close and explicit/unknown Closes; an invariant monitor over public results only is evaluated after every call; complete sweep of all histories of length <=4 over a 9-letter alphabet. Sampling beyond the sweep.",
+   "Trusts CanClose/Equal as the closing rules (C19's subject) and the monitor's reading of 'open' = Open() + pending breakaways; completeness of Open() is not demanded."),
  "C14": ("C14 PMT filtering as relay stage", "§4 C14",
    "Seeded search over abstract PMTs x packetisation/mux/fragmentation into the real accumulator x PID request shapes (subset, order, absent, duplicated, PAT/PMT PID, empty) -> FilterPMTPacketsToPids -> comparison with the reference serialisation of the restricted PMT (headers, pointer, section_length, CRC, padding), error contract, inputs untouched -> re-mux -> ReadPMT over a second faulty reader; RemoveElementaryStreams/Pids/PIDExists on the decoded PMT. Sampling, not proof.",
    "Trusts the reference serialiser/CRC; elementary PIDs distinct; the overlap of the two error clauses is accepted either way."),
